@@ -143,6 +143,16 @@ func execReuseSeq(c *drv.Ctx, d M) bool {
 			switch reader {
 			case "p0":
 				return "ignored", nil
+			case "w1":
+				fw := &failWriter{room: unit}
+				_, err := io.Copy(fw, resp.Body())
+				if !fw.failed {
+					sawEnd = true
+				}
+				if err == nil {
+					return "copied", nil
+				}
+				return nil, err
 			case "p1":
 				buf := make([]byte, unit)
 				if _, err := io.ReadFull(resp.Body(), buf); err != nil {
@@ -205,7 +215,7 @@ func generateReuseSeq(c *drv.Ctx, thorough bool) {
 		delays = []int{0, 20, 60, 150}
 	}
 	for _, framing := range []string{"length", "chunked"} {
-		for _, reader := range []string{"p0", "p1", "all"} {
+		for _, reader := range []string{"p0", "p1", "all", "w1"} {
 			for _, reuse := range []bool{true, false} {
 				for _, delay := range delays {
 					for _, unit := range []int{8, 5000} {
